@@ -15,6 +15,7 @@ def wire_str(w):
 
 class C12(Prop):
     id = "C12"
+    suite_family = ('stab', ('tostate', 'fromstab'))
     trace_module = "TraceStab"
     trace_cfg = "TraceStab.cfg"
     backends = ("py", "torch")
